@@ -16,10 +16,10 @@
 EXTENDS Integers, Sequences, FiniteSets, TLC, Json, IOUtils
 Rec == ndJsonDeserialize(IOEnv.TRACE)
 
-VARIABLES l, run, cfg, viol, hits, nruns,
+VARIABLES l, run, cfg, viol, hits, nruns, lastFresh,
           wrT, dl, closedAt, accPre, accInt, finAcc, advEdge, lastAckEm, synWs, maxEdge, zeroRecent, maxSent,
           peerMss, maxAckRcvd, twEntry, twLastRx, rstSeen, scripted
-conn == <<wrT, dl, closedAt, accPre, accInt, finAcc, advEdge, lastAckEm, synWs, maxEdge, zeroRecent, maxSent,
+conn == <<lastFresh, wrT, dl, closedAt, accPre, accInt, finAcc, advEdge, lastAckEm, synWs, maxEdge, zeroRecent, maxSent,
           peerMss, maxAckRcvd, twEntry, twLastRx, rstSeen, scripted>>
 vars == <<l, run, cfg, viol, hits, nruns, conn>>
 
@@ -50,6 +50,7 @@ RECURSIVE Adv(_, _)
 Adv(pre, s) == IF s # <<>> /\ Head(s)[1] <= pre + 1 THEN Adv(Max(pre, Head(s)[2] - 1), Tail(s)) ELSE [pre |-> pre, s |-> s]
 
 InitConn ==
+  /\ lastFresh = Fn(0)
   /\ wrT = Fn(0) /\ dl = Fn(0) /\ closedAt = Fn(-1) /\ accPre = Fn(0) /\ accInt = Fn(<<>>) /\ finAcc = Fn(-1)
   /\ advEdge = Fn(0) /\ lastAckEm = Fn(0) /\ synWs = Fn(-1) /\ maxEdge = Fn(0) /\ zeroRecent = Fn(0) /\ maxSent = Fn(0)
   /\ peerMss = Fn(-1) /\ maxAckRcvd = Fn(0) /\ twEntry = Fn(-1) /\ twLastRx = Fn(-1) /\ rstSeen = FALSE /\ scripted = Fn(FALSE)
@@ -78,7 +79,7 @@ OutViol(e, o, pre, fin, ms, rq, synws, k) ==
       s3 == ~isData \/ o.pd = -1 \/ right <= k.mar
       s4 == ~isData \/ o.seq <= Max(Max(ms, k.mar), 1)
       s5 == /\ (o.fin => (closedAt[e] # -1 /\ right = closedAt[e] + 1))
-            /\ ((isData /\ closedAt[e] # -1) => right <= closedAt[e] + 1)
+            /\ ((isData /\ closedAt[e] # -1) => (right <= closedAt[e] + 1 \/ (o.len = 1 /\ right <= k.mar)))
       s6 == ~o.syn \/ o.rst \/ o.win = Min(RxCap(e) - rq, 65535)
       k2 == o.cs /\ o.wf
       P(r, ok, x) == IF ok THEN <<>> ELSE << <<l, r, e>> \o x >>
@@ -119,6 +120,10 @@ EdgeOK(e, b, a, kind, g, call, finInOrder, ackOfFin, rstOK, now) ==
                      \/ call = "close" /\ <<b, a>> \in {<<"LISTEN", "CLOSED">>, <<"SYN-SENT", "CLOSED">>, <<"SYN-RECEIVED", "FIN-WAIT-1">>,
                                                         <<"ESTABLISHED", "FIN-WAIT-1">>, <<"CLOSE-WAIT", "LAST-ACK">>}
   \/ kind = "egress" /\ b = "TIME-WAIT" /\ a = "CLOSED"
+  \* user timeout: only when configured, and not before the configured silence since the peer last made the
+  \* connection advance (the code counts from the last accepted segment, or from the first transmission after idling)
+  \/ kind = "egress" /\ a = "CLOSED" /\ b \notin {"CLOSED", "LISTEN"} /\ "tmo" \in DOMAIN cfg[e + 1] /\ cfg[e + 1].tmo >= 0
+       /\ now - lastFresh[e] >= cfg[e + 1].tmo
   \/ kind = "rx" /\
      \/ b = "LISTEN" /\ a = "SYN-RECEIVED" /\ g.syn /\ ~g.ha /\ ~g.rst
      \/ b = "SYN-SENT" /\ a = "ESTABLISHED" /\ g.syn /\ g.ha /\ g.ack = 1 /\ ~g.rst
@@ -142,6 +147,7 @@ Step ==
      CASE r.ev = "reset" ->
             /\ Flush
             /\ run' = r.run /\ cfg' = r.cfg /\ viol' = <<>> /\ nruns' = nruns + 1 /\ hits' = hits
+            /\ lastFresh' = Fn(0)
             /\ wrT' = Fn(0) /\ dl' = Fn(0) /\ closedAt' = Fn(-1) /\ accPre' = Fn(0) /\ accInt' = Fn(<<>>) /\ finAcc' = Fn(-1)
             /\ advEdge' = Fn(0) /\ lastAckEm' = Fn(0) /\ synWs' = Fn(-1) /\ maxEdge' = Fn(0) /\ zeroRecent' = Fn(0) /\ maxSent' = Fn(0)
             /\ peerMss' = Fn(-1) /\ maxAckRcvd' = Fn(0) /\ twEntry' = Fn(-1) /\ twLastRx' = Fn(-1) /\ rstSeen' = FALSE
@@ -157,12 +163,12 @@ Step ==
                    /\ wrT' = [wrT EXCEPT ![e] = @ + (IF r.ret > 0 THEN r.ret ELSE 0)]
                    /\ viol' = AddAll(viol, tv \o pv)
                    /\ hits' = [hits EXCEPT !["L1"] = @ + 1]
-                   /\ UNCHANGED <<dl, closedAt, accPre, accInt, finAcc, advEdge, lastAckEm, synWs, maxEdge, zeroRecent, maxSent, peerMss, maxAckRcvd, twEntry, twLastRx, rstSeen, scripted>>
+                   /\ UNCHANGED <<dl, closedAt, accPre, accInt, finAcc, advEdge, lastAckEm, synWs, maxEdge, zeroRecent, maxSent, peerMss, maxAckRcvd, twEntry, twLastRx, rstSeen, scripted, lastFresh>>
               [] r.call = "close" ->
                    /\ closedAt' = [closedAt EXCEPT ![e] = IF @ = -1 THEN r.at ELSE @]
                    /\ viol' = AddAll(viol, tv \o pv)
                    /\ hits' = [hits EXCEPT !["T1"] = @ + 1]
-                   /\ UNCHANGED <<wrT, dl, accPre, accInt, finAcc, advEdge, lastAckEm, synWs, maxEdge, zeroRecent, maxSent, peerMss, maxAckRcvd, twEntry, twLastRx, rstSeen, scripted>>
+                   /\ UNCHANGED <<wrT, dl, accPre, accInt, finAcc, advEdge, lastAckEm, synWs, maxEdge, zeroRecent, maxSent, peerMss, maxAckRcvd, twEntry, twLastRx, rstSeen, scripted, lastFresh>>
               [] r.call = "recv" ->
                    LET p == 1 - e
                        n == IF r.ret > 0 THEN r.ret ELSE 0
@@ -175,12 +181,12 @@ Step ==
                       /\ viol' = AddAll(viol, p1 \o p3 \o r2 \o p2 \o tv \o pv)
                       /\ hits' = [hits EXCEPT !["P1"] = @ + (IF n > 0 THEN 1 ELSE 0), !["R2"] = @ + (IF n > 0 THEN 1 ELSE 0),
                                               !["P3"] = @ + (IF n > 0 THEN 1 ELSE 0), !["P2"] = @ + (IF r.err = "finished" THEN 1 ELSE 0)]
-                      /\ UNCHANGED <<wrT, closedAt, accPre, accInt, finAcc, advEdge, lastAckEm, synWs, maxEdge, zeroRecent, maxSent, peerMss, maxAckRcvd, twEntry, twLastRx, rstSeen, scripted>>
+                      /\ UNCHANGED <<wrT, closedAt, accPre, accInt, finAcc, advEdge, lastAckEm, synWs, maxEdge, zeroRecent, maxSent, peerMss, maxAckRcvd, twEntry, twLastRx, rstSeen, scripted, lastFresh>>
               [] OTHER ->    \* listen, connect, abort
                    /\ viol' = AddAll(viol, tv \o pv)
                    /\ hits' = [hits EXCEPT !["T1"] = @ + 1]
                    /\ rstSeen' = (rstSeen \/ r.call = "abort")
-                   /\ UNCHANGED <<wrT, dl, closedAt, accPre, accInt, finAcc, advEdge, lastAckEm, synWs, maxEdge, zeroRecent, maxSent, peerMss, maxAckRcvd, twEntry, twLastRx, scripted>>
+                   /\ UNCHANGED <<wrT, dl, closedAt, accPre, accInt, finAcc, advEdge, lastAckEm, synWs, maxEdge, zeroRecent, maxSent, peerMss, maxAckRcvd, twEntry, twLastRx, scripted, lastFresh>>
        [] r.ev = "rx" ->
             LET e == r.ep
                 p == 1 - e
@@ -239,6 +245,8 @@ Step ==
                /\ hits' = [hits EXCEPT !["R3"] = @ + Len(r.out), !["S1"] = @ + Len(r.out), !["T1"] = @ + (IF r.before # r.post.st THEN 1 ELSE 0),
                                        !["L1"] = @ + 1, !["K3"] = @ + (IF IsTcp(g) /\ ~g.cs THEN 1 ELSE 0),
                                        !["T3"] = @ + (IF IsTcp(g) /\ g.rst THEN 1 ELSE 0)]
+               \* certain evidence that the socket accepted g: it changed state, or acknowledged new data in the same poll
+               /\ lastFresh' = [lastFresh EXCEPT ![e] = IF good /\ (r.before # r.post.st \/ f.la > lastAckEm[e]) THEN r.now ELSE @]
                /\ UNCHANGED <<wrT, dl, closedAt, scripted>>
        [] r.ev \in {"egress", "probe"} ->
             LET e == r.ep
@@ -248,7 +256,8 @@ Step ==
                 tv == IF EdgeOK(e, before, r.post.st, "egress", [x |-> 0], "", FALSE, FALSE, FALSE, r.now) THEN <<>>
                       ELSE << <<l, "T1", e, before, r.post.st, "egress">> >>
                 \* T2: TIME-WAIT ends by itself 10 s after entry (re-armed at most by segments received meanwhile)
-                t2 == IF before = "TIME-WAIT" /\ r.post.st = "CLOSED" /\ twEntry[e] >= 0 /\ r.now < twEntry[e] + 10000
+                tmoOK == "tmo" \in DOMAIN cfg[e + 1] /\ cfg[e + 1].tmo >= 0 /\ r.now - lastFresh[e] >= cfg[e + 1].tmo
+                t2 == IF before = "TIME-WAIT" /\ r.post.st = "CLOSED" /\ twEntry[e] >= 0 /\ r.now < twEntry[e] + 10000 /\ ~tmoOK
                       THEN << <<l, "T2", e, "early", r.now - twEntry[e]>> >>
                       ELSE IF before = "TIME-WAIT" /\ r.post.st = "TIME-WAIT" /\ twLastRx[e] >= 0 /\ r.now >= twLastRx[e] + 10000
                       THEN << <<l, "T2", e, "late", r.now - twLastRx[e]>> >> ELSE <<>>
@@ -262,7 +271,7 @@ Step ==
                /\ viol' = AddAll(viol, ov \o tv \o t2 \o q1 \o q2 \o PostViol(e, r.post, r.now))
                /\ hits' = [hits EXCEPT !["S1"] = @ + Len(r.out), !["L1"] = @ + 1, !["Q1"] = @ + (IF r.ev = "probe" THEN 1 ELSE 0),
                                        !["Q2"] = @ + (IF r.out = <<>> THEN 1 ELSE 0), !["T2"] = @ + (IF before = "TIME-WAIT" THEN 1 ELSE 0)]
-               /\ UNCHANGED <<wrT, dl, closedAt, accPre, accInt, finAcc, maxEdge, zeroRecent, peerMss, maxAckRcvd, twEntry, twLastRx, scripted>>
+               /\ UNCHANGED <<wrT, dl, closedAt, accPre, accInt, finAcc, maxEdge, zeroRecent, peerMss, maxAckRcvd, twEntry, twLastRx, scripted, lastFresh>>
        [] r.ev = "end" ->
             LET done == \A e \in EPS : r.post[e + 1].st = "CLOSED" /\ r.read[e + 1] = r.written[2 - e] /\ r.finished[e + 1]
                 l2 == IF r.how = "quiescent" /\ ~rstSeen /\ ~done
@@ -275,7 +284,7 @@ Step ==
             /\ viol' = Add(viol, <<l, "PANIC", r.ep, r.msg>>)
             /\ hits' = [hits EXCEPT !["PANIC"] = @ + 1]
             /\ UNCHANGED conn
-       [] OTHER -> UNCHANGED <<viol, hits, conn>>
+       [] OTHER -> UNCHANGED <<viol, hits, conn, lastFresh>>
   /\ (Rec[l].ev = "reset" \/ UNCHANGED <<run, cfg, nruns>>)
 Spec == Init /\ [][Step]_vars
 Final == l = Len(Rec) + 1 => /\ Flush
